@@ -36,11 +36,11 @@ LEVEL_TEXT = ('Fault enumeration: histories = {every prefix of 5 role scripts x 
               'Judged by a descriptor ledger (/proc/self/fd), the executor registries, and an os.close monitor.')
 LEVEL_NOTE = ('Trusted: /proc/self/fd as ground truth for open descriptors; the baseline is taken after the executor warmed up '
               '(asyncio creates its self-pipe lazily). Sockets only reclaimed by the garbage collector are counted '
-              'separately (ResourceWarning), not as leaks. --enable-conn-pool is not exercised.')
+              'separately (ResourceWarning), not as leaks. A third of the step-rig histories run with --enable-conn-pool (the pool is bookkeeping too).')
 TECHNIQUE = 'runtime monitoring with fault injection: descriptor ledger + executor-registry invariants at quiescence + os.close monitor, single and repeated histories'
 RULE = ('case = (history, executor mode, repetitions); non-trivial = an upstream socket existed when the history was cut short, '
         'or a fault was actually injected; distinct = history signature x mode')
-ASSUMPTIONS = ['the harness closes its own ends before the ledger is read', 'connection pooling is off (default)']
+ASSUMPTIONS = ['the harness closes its own ends before the ledger is read', 'with --enable-conn-pool a listed pool connection may stay open between histories; only closed ones still listed, and growth under repetition, are judged']
 SHARDS = {'quick': 8, 'thorough': 16}
 BUDGET_S = {'quick': 45, 'thorough': 800}
 
@@ -60,9 +60,9 @@ def _watched_os_close(fd: int) -> None:
 os.close = _watched_os_close        # type: ignore[assignment]   (monitor: passes every call through)
 
 
-def flags_all(timeout: Optional[int] = None, threaded: bool = False) -> Any:
-    args = ['--enable-web-server', '--enable-reverse-proxy'] + (['--timeout', str(timeout)] if timeout else [])
-    return make_flags(args, plugins=[c04.RouteA, c04.RouteB, c04.Rev], cache_key='c10:%s:%s' % (timeout, threaded), threaded=threaded)
+def flags_all(timeout: Optional[int] = None, threaded: bool = False, pool: bool = False) -> Any:
+    args = ['--enable-web-server', '--enable-reverse-proxy'] + (['--timeout', str(timeout)] if timeout else []) + (['--enable-conn-pool'] if pool else [])
+    return make_flags(args, plugins=[c04.RouteA, c04.RouteB, c04.Rev], cache_key='c10:%s:%s:%s' % (timeout, threaded, pool), threaded=threaded)
 
 
 def run_history(rig: StepRig, adv: Dict[str, Any], rng: random.Random, case: Dict[str, Any]) -> Dict[str, Any]:
@@ -123,6 +123,15 @@ def ledger(rig: StepRig) -> Dict[str, Any]:
         problems.append(('selector-still-watching-descriptors', st['selector_fds']))
     if st['unfinished']:
         problems.append(('unfinished-tasks-remain', st['unfinished']))
+    pool = getattr(rig.ex, '_upstream_conn_pool', None)
+    if pool is not None:
+        # --enable-conn-pool: the worker-wide pool is bookkeeping too.  A connection it still lists must be alive; one that
+        # has been closed (descriptor gone) is a stale entry.
+        listed = list(pool.connections.values()) + [c for group in pool.pools.values() for c in group]
+        dead = [repr(c.addr) for c in listed if c.closed or c.connection.fileno() < 0]
+        if dead:
+            problems.append(('closed-connection-still-listed-in-upstream-pool', sorted(set(dead))))
+        st['pool_size'] = len(pool.connections) + sum(len(g) for g in pool.pools.values())
     for p in rig.peers:
         if not p.closed:
             try:
@@ -231,15 +240,16 @@ def run_case(case: Dict[str, Any]) -> Dict[str, Any]:
     shim.S.reset()
     del _bad_closes[:]
     texc = monitors.watch_task_exceptions()
-    rig = StepRig(flags_all(), mode)
+    rig = StepRig(flags_all(pool=bool(case.get('pool'))), mode)
     viol: List[Dict[str, Any]] = []
     obs: Dict[str, int] = {}
-    feat = '%s|%s|%s' % (adv['class'], adv.get('role', adv.get('kind', '-')), adv.get('upstream', adv.get('ending', '-')))
+    feat = '%s|%s|%s%s' % (adv['class'], adv.get('role', adv.get('kind', '-')), adv.get('upstream', adv.get('ending', '-')), '|conn-pool' if case.get('pool') else '')
     reps = case.get('reps', 1)
     info: Dict[str, Any] = {}
     rw = 0
     try:
         counts = []
+        pool_sizes: List[int] = []
         with warnings.catch_warnings(record=True) as wlist:
             warnings.simplefilter('always', ResourceWarning)
             for rep in range(reps):
@@ -248,6 +258,7 @@ def run_case(case: Dict[str, Any]) -> Dict[str, Any]:
                 gc.collect()
                 led = ledger(rig)
                 counts.append(len(open_fds()))
+                pool_sizes.append(led['state'].get('pool_size', 0))
                 if led['problems']:
                     for (what, d) in led['problems']:
                         viol.append({'key': '%s|%s' % (feat, what), 'detail': {'adversary': adv, 'mode': mode, 'repetition': rep, 'what': d,
@@ -266,13 +277,15 @@ def run_case(case: Dict[str, Any]) -> Dict[str, Any]:
             # descriptor count after each repetition must not grow (harness origins are closed after each repetition)
             if counts[-1] > counts[0]:
                 viol.append({'key': '%s|descriptor-count-grows-under-repetition' % feat, 'detail': {'adversary': adv, 'mode': mode, 'counts': counts}})
+            if pool_sizes and pool_sizes[-1] > pool_sizes[0]:
+                viol.append({'key': '%s|upstream-pool-grows-under-repetition' % feat, 'detail': {'adversary': adv, 'mode': mode, 'sizes': pool_sizes}})
     except LoopDied as e:
         viol.append({'key': '%s|loop-died:%s' % (feat, e.where()), 'detail': {'adversary': adv, 'tb': e.tb[-1200:]}})
     finally:
         rig.close()
     obs.update({'class:' + adv['class']: 1, 'mode:' + mode: 1, 'had_upstream_at_end': 1 if info.get('had_upstream') else 0,
                 'faults_fired': info.get('fault_fired', 0), 'resource_warnings': rw, 'ending:' + str(adv.get('ending')): 1,
-                'histories_with_clean_ledger': 0 if viol else 1})
+                'histories_with_clean_ledger': 0 if viol else 1, 'conn_pool_histories': 1 if case.get('pool') else 0})
     return {'viol': viol[:3], 'nontrivial': bool(info.get('had_upstream') or info.get('fault_fired')),
             'sig': '%s/%s/%s/%d' % (feat, sorted((k, str(v)) for k, v in adv.items()), mode, reps), 'obs': obs,
             'sample': {'case': case}}
@@ -429,6 +442,9 @@ def cases(tier: str, seed: int):
         i += 1
         d = {'seed': seed, 'i': i, 'adv': adv, 'mode': 'remote' if i % 3 == 0 else 'local', 'reps': 1}
         d.update(kw)
+        if adv.get('class') in ('prefix', 'upstream', 'client-abort-with-queued-output', 'upstream-never-reads') and adv.get('role') in ('forward', 'forward-post', 'tunnel') and i % 3 == 1:
+            d['pool'] = True
+            d['reps'] = max(d['reps'], 3)
         return d
     step = 3 if tier == 'quick' else 1
     for role in adversary.ROLE_SCRIPTS:
@@ -494,7 +510,7 @@ def cases(tier: str, seed: int):
 
 
 def floors(tier: str) -> Dict[str, int]:
-    return {'histories_with_clean_ledger': 1000, 'had_upstream_at_end': 300, 'faults_fired': 50, 'mode:remote': 200, 'class:prefix': 150,
+    return {'conn_pool_histories': 40, 'histories_with_clean_ledger': 1000, 'had_upstream_at_end': 300, 'faults_fired': 50, 'mode:remote': 200, 'class:prefix': 150,
             'class:upstream': 100, 'class:fault': 100, 'class:idle-timeout': 30, 'repeated_histories': 10, 'threaded_histories': 30, 'tls_front_histories': 12,
             'ending:reset': 100, 'ending:close': 300}
 
